@@ -1,40 +1,71 @@
 """C02 - ForceFlush and Shutdown are complete, final and always return."""
 from props import batchcommon as B
+from props import readercommon as RD
+import importlib, os
 
 ID = 'C02'
 GEN = ['Batch']
-LEAN_TARGETS = ['OtelVerif.Props.C02']
+LEAN_TARGETS = ['OtelVerif.Props.C02'] + RD.LEAN_TARGETS
 THEOREMS = ['Otel.C02.' + t for t in (
     'flush_complete', 'published_tickets_flushed', 'exporter_shutdown_at_most_once', 'shutdown_returned', 'shutdown_drains',
     'no_exporter_call_after_shutdown_returned', 'no_export_after_done', 'shutdown_is_final', 'late_onend_is_noop',
     'late_forceflush_returns_false', 'late_shutdown_is_noop', 'worker_never_stuck', 'flusher_never_stuck',
     'shutdown_blocked_only_by')] + ['Otel.Batch.reachable_inv', 'Otel.Batch.inv_astep']
-HARNESSES = [B.H_BSP, B.H_BLP]
+THEOREMS = THEOREMS + RD.THEOREMS_C02
+HARNESSES = [B.H_BSP, B.H_BLP] + RD.HARNESSES
+SUBS = [importlib.import_module('props.' + n) for n in ('c02_fanout',) if os.path.exists(os.path.join(os.path.dirname(__file__), n + '.py'))]
+for _m in SUBS:
+    LEAN_TARGETS = LEAN_TARGETS + list(_m.LEAN_TARGETS)
+    THEOREMS = THEOREMS + list(_m.THEOREMS)
+    HARNESSES = HARNESSES + [h for h in _m.HARNESSES if h.name not in {x.name for x in HARNESSES}]
+    GEN = GEN + [g for g in (_m.GEN or []) if g not in GEN]
 ENGINE = 'lean-proof + deterministic-scheduler refinement check (Engine D)'
 RULE = ('schedules of the UNMODIFIED batch processors with concurrent ForceFlush callers (indefinite and finite timeouts), 0-2 '
         'Shutdown callers and the destructor, exporters whose Export / ForceFlush / Shutdown report failure, timer expiry and '
         'spurious wake-ups as schedule actions; every run is drained to quiescence under a step budget (termination). The trace '
         'is abstracted to protocol events and replayed on the Lean model. non-trivial = at least two threads act')
 TRUSTED = ['the scheduler shim', 'props/batchcommon.py::abstract', 'fairness (termination is "never stuck" + drained runs)']
-ASSUMPTIONS = ['sequential consistency', 'provider / multi-processor fan-out and the periodic reader are in progress']
+ASSUMPTIONS = ['sequential consistency', 'provider / multi-processor fan-out: see the fan sub-check when present; periodic reader: flush completeness is partial (D17: a collection cancelled by export_timeout skips Export but the ticket is still published)']
 
 
 def corpus():
-    return B.batch_corpus()
+    return B.batch_corpus() + RD.corpus() + [c for m in SUBS for c in m.corpus()]
 
 
 def generate(rng, tier):
-    return B.gen_schedules(rng, tier)
+    return B.gen_schedules(rng, tier) + RD.generate(rng, tier) + [c for m in SUBS for c in m.generate(rng, tier)]
 
 
 def oracle(case, out):
     if out == 'bad-op':
         return ('harness-rejected-case', out)
+    w = case.line.split()[0]
+    if w in RD.WORDS:
+        return RD.oracle(case, out, ('c02',))
+    for m in SUBS:
+        if w in m.WORDS:
+            return m.oracle(case, out)
     return B.oracle_c02(case, out)
 
 
-model_line = B.model_line
-agree = B.agree
+def model_line(case, out):
+    w = case.line.split()[0]
+    if w in RD.WORDS:
+        return RD.model_line(case, out)
+    for m in SUBS:
+        if w in m.WORDS:
+            return m.model_line(case, out) if hasattr(m, 'model_line') else case.line
+    return B.model_line(case, out)
+
+
+def agree(case, out, mout):
+    w = case.line.split()[0]
+    if w in RD.WORDS:
+        return RD.agree(case, out, mout)
+    for m in SUBS:
+        if w in m.WORDS:
+            return m.agree(case, out, mout) if hasattr(m, 'agree') else out == mout
+    return B.agree(case, out, mout)
 
 
 def signature(case, out, clause):
@@ -51,6 +82,5 @@ LEVEL_TEXT = ('Lean 4: from one inductive invariant of the protocol model, for e
               'down at most once and exactly once when a Shutdown returned, shutdown_drains, no exporter call after a Shutdown '
               'returned, shutdown final, late OnEnd/ForceFlush/Shutdown are no-ops, and "never stuck" lemmas for termination. '
               'Tie: refinement check of real executions under the deterministic scheduler.')
-LEVEL_NOTE = ('Trusted: Lean kernel; scheduler shim (SC); event abstraction; fairness. Partial: liveness under real schedulers; '
-              'provider fan-out and periodic reader clauses are being added.')
+LEVEL_NOTE = ('Trusted: Lean kernel; scheduler shim (SC); event abstraction; fairness. Partial: liveness under real schedulers; reader flush completeness holds unless a collection was cancelled by export_timeout (D17 witness).')
 DESIGN_REF = 'DESIGN.md section 4, C02; Appendix C'
